@@ -83,6 +83,7 @@ M = [
     ("C19-wmedian-abs-epsilon", "C19", "cnvlib/descriptives.py", "    tolerance = len(a) * sys.float_info.epsilon * midpoint\n", "    tolerance = 0.0\n"),
     ("C19-wmedian-loose-tolerance", "C19", "cnvlib/descriptives.py", "    tolerance = len(a) * sys.float_info.epsilon * midpoint\n", "    tolerance = 1e-5 * midpoint\n"),
     ("C07-float32-not-float", "C07", "skgenome/intersect.py", "isinstance(elem, (float, np.floating))", "isinstance(elem, (float, np.float64))"),
+    ("C10-empty-target-not-copied", "C10", "cnvlib/fix.py", "        return cnarr.copy(), ref_cnarr[:0]", "        return cnarr, ref_cnarr[:0]"),
     ("C12-annotate-by-label", "C12", "cnvlib/target.py", 'annotation.into_ranges(tgt_arr, "gene", "-").values', 'annotation.into_ranges(tgt_arr, "gene", "-")'),
     # ---- C13
     ("C13-join-le", "C13", "cnvlib/access.py", "if gap < min_gap_size:", "if gap <= min_gap_size:"),
